@@ -145,6 +145,53 @@ def observe(kind, row, r, frames, before, after):
     return f"{out} {after} {txs}", r == ("exc", "ValueError"), tx
 
 
+HANDLES = ("device.data", "device.data", "kept from subscribe", "kept from subscribe(on_change)")
+
+
+async def rereport_case(w, tables, tname, kind, label, row, first, second, raw_req, handle, st, res, value=None):
+    """the controller reports `first`, then the same value with the bounds of `second`; the client then calls
+    set() on the parameter object it holds: looked up in device.data now, or KEPT from the first notification
+    of a plain / on_change-filtered subscription (the object a client is handed must follow later reports)"""
+    from pyplumio.filters import on_change
+    dev = w.device(label)
+    kept = []
+
+    async def keep(p):
+        if not kept:
+            kept.append(p)
+
+    sub = None
+    if handle != "device.data":
+        sub = keep if handle == "kept from subscribe" else on_change(keep)
+        dev.subscribe(row["name"], sub)
+    # make sure the first report differs from what is held (an unchanged report is not announced by on_change)
+    cur = dev.data.get(row["name"])
+    if cur is not None and (cur.values.value, cur.values.min_value, cur.values.max_value) == tuple(first):
+        await feed_triple(w, tables, tname, kind, row, second, st)
+        kept.clear()
+    await feed_triple(w, tables, tname, kind, row, first, st)
+    await feed_triple(w, tables, tname, kind, row, second, st)
+    if sub is not None:
+        dev.unsubscribe(row["name"], sub)
+    if kept:
+        p = kept[0]
+    else:
+        p = dev.data[row["name"]]
+        handle = "device.data"
+    live = dev.data[row["name"]]
+    held = (live.values.value, live.values.min_value, live.values.max_value)
+    val = shown(kind, row, raw_req) if value is None else value
+    r, frames = await pd.run_set(w, lambda: p.set(val, retries=1, timeout=0.01))
+    after = dev.data[row["name"]].values.value
+    obs, raised, tx = observe(kind, row, r, frames, held, after)
+    if held != tuple(second):
+        res.count("rereport:held-differs-from-last-report")
+    res.count("rereport:handle:" + handle)
+    return dict(table=tname, row=row["name"], kind=kind, conv=pd.conv_words(kind, row), triple=list(second), value=val,
+                via="parameter.set after re-report", obs=obs, raised=raised, tx=tx, after=after, result=list(r),
+                reports=[list(first), list(second)], handle=handle)
+
+
 async def run_async(ctx, res, only=None):
     tier = ctx["tier"]
     quick = tier == "quick"
@@ -157,7 +204,7 @@ async def run_async(ctx, res, only=None):
         await w.uid(product)
         st = {}
         for tname, kind, label, row in rows_of(product, tables):
-            if only and (only["table"], only["row"]) != (tname, row["name"]):
+            if only and ((only["table"], only["row"]) != (tname, row["name"]) or only.get("reports")):
                 continue
             cw = pd.conv_words(kind, row)
             trs = [tuple(only["triple"])] if only else triples_for(rng, kind, row, 1 if quick else 6)
@@ -192,20 +239,15 @@ async def run_async(ctx, res, only=None):
                 wide, narrow = (v, v - 8, v + 8), (v, v - 2, v + 2)
                 first, second = (wide, narrow) if rng.random() < 0.6 else (narrow, wide)
                 cw = pd.conv_words(kind, row)
-                await feed_triple(w, tables, tname, kind, row, first, st)
-                await feed_triple(w, tables, tname, kind, row, second, st)
-                dev = w.device(label)
-                p = dev.data[row["name"]]
-                held = (p.values.value, p.values.min_value, p.values.max_value)
                 raw_req = v + rng.choice([5, -5, 3, -3])           # inside the wide bounds, outside the narrow ones
-                val = shown(kind, row, raw_req)
-                r, frames = await pd.run_set(w, lambda: p.set(val, retries=1, timeout=0.01))
-                after = dev.data[row["name"]].values.value
-                obs, raised, tx = observe(kind, row, r, frames, held, after)
-                if held != second:
-                    res.count("rereport:held-differs-from-last-report")
-                cases.append(dict(table=tname, row=row["name"], kind=kind, conv=cw, triple=list(second), value=val,
-                                  via="parameter.set after re-report", obs=obs, raised=raised, tx=tx, after=after, result=list(r)))
+                handle = rng.choice(HANDLES)
+                cases.append(await rereport_case(w, tables, tname, kind, label, row, first, second, raw_req, handle, st, res))
+        elif only.get("reports"):
+            for tname, kind, label, row in rows_of(product, tables):
+                if (only["table"], only["row"]) == (tname, row["name"]):
+                    first, second = [tuple(x) for x in only["reports"]]
+                    cases.append(await rereport_case(w, tables, tname, kind, label, row, first, second, None, only["handle"], st, res,
+                                                     value=only["value"]))
         await w.shutdown()
     lines = []
     for c in cases:
@@ -229,6 +271,8 @@ async def run_async(ctx, res, only=None):
         val, lo, hi = c["triple"]
         inp = dict(table=c["table"], row=c["row"], triple=c["triple"], value=repr(c["value"]) if isinstance(c["value"], float) else c["value"],
                    value_token=pd.enc_val(c["value"]), via=c["via"], conv=c["conv"])
+        if c.get("reports"):
+            inp.update(reports=c["reports"], handle=c["handle"])
         vt = type(c["value"]).__name__
         res.case((c["conv"], c["table"], c["row"], tuple(c["triple"]), pd.enc_val(c["value"])), nontrivial=True)
         res.count("value:" + vt)
@@ -575,5 +619,6 @@ def replay(ctx):
     else:
         a, b = body.split("/")
         v = int(a) / int(b)
-    pd.run(run_async(dict(ctx, tier="quick"), res, only=dict(table=inp["table"], row=inp["row"], triple=inp["triple"], value=v)))
+    pd.run(run_async(dict(ctx, tier="quick"), res, only=dict(table=inp["table"], row=inp["row"], triple=inp["triple"], value=v,
+                                                              reports=inp.get("reports"), handle=inp.get("handle", "device.data"))))
     return res
